@@ -104,6 +104,7 @@ c.finish(
         "hand-written Gallina validator coq/C03/Validate.v + PSyntax.v (from ISO 32000-2 §7.2-7.5; shares only the value datatype with the C02 models)",
     ],
     partial=[
-        "validate_model_writer_partial: the structural facts validate checks hold of every output of the model writer (offsets of headers, /Length = body length); that validate's parser accepts the model formatter's text is executed on every case (and is C01's round trip), not proved; full statement: Definition validate_model_writer_full",
+        "validate_model_writer_full (Definition): proved are validate_model_writer_partial (every structural fact validate checks holds of every output of the model writer) and parser_accepts_formatter / parser_accepts_object / parser_accepts_stream_dict (the validator's parser reads the canonical formatter's text of every well-formed value as its normal form); the composition into 'validate returns Ok' over whole files is executed on every case.",
+        "strict_subset_lenient_full (Definition): stated, not proved; compared on every file of every run (go-pdf's Reader and the validator answer the same references of the same file).",
     ],
 )
